@@ -400,6 +400,8 @@ class HistogramND(HistogramBase):
         if dropna:
             array_mask = ~np.isnan(values_array).any(axis=1)
             values_array = values_array[array_mask]
+        if values_array.shape[0] == 0:
+            return  # Nothing to add (and bins of an empty adaptive histogram cannot be evaluated)
         if weights is not None:
             weights = np.asarray(weights)
             if array_mask is not None and weights.shape == array_mask.shape:
